@@ -17,8 +17,15 @@ pub struct CheckDef {
 }
 
 pub const CHECKS: &[CheckDef] = &[
+    CheckDef { id: "C01", quick_runs: 3000, thorough_runs: 150_000, level: "exploration", title: "every interleaving outcome is explored" },
     CheckDef { id: "C02", quick_runs: 1600, thorough_runs: 60_000, level: "exploration", title: "every RC11-allowed outcome without load buffering is explored" },
     CheckDef { id: "C03", quick_runs: 2000, thorough_runs: 80_000, level: "exploration", title: "every explored execution is RC11-consistent" },
+    CheckDef { id: "C04", quick_runs: 3000, thorough_runs: 150_000, level: "exploration", title: "data races are reported exactly" },
+    CheckDef { id: "C05", quick_runs: 3000, thorough_runs: 150_000, level: "exploration", title: "deadlocks are reported exactly" },
+    CheckDef { id: "C07", quick_runs: 3000, thorough_runs: 150_000, level: "exploration", title: "Mutex/RwLock exclusion, blocking, hand-over" },
+    CheckDef { id: "C08", quick_runs: 3000, thorough_runs: 150_000, level: "exploration", title: "waiting primitives wake exactly on notification" },
+    CheckDef { id: "C09", quick_runs: 3000, thorough_runs: 150_000, level: "exploration", title: "mpsc: once, in order, with ordering" },
+    CheckDef { id: "C14", quick_runs: 2000, thorough_runs: 80_000, level: "exploration", title: "exploration terminates and never repeats" },
 ];
 
 pub fn check_def(id: &str) -> Option<&'static CheckDef> {
@@ -34,20 +41,64 @@ pub struct Case {
 pub fn generate(check: &str, tier: &str, seed: u64, run: u64) -> Case {
     let mut rng = Rng::derive(seed, check, run, "prog");
     let thorough = tier == "thorough";
-    match check {
-        "C02" | "C03" => {
-            let program = if rng.chance(2, 5) {
-                gen_litmus_template(&mut rng)
+    let mut config = Config::default();
+    config.iter_cap = if thorough { 60_000 } else { 12_000 };
+    let ws = witnesses(check);
+    if (run as usize) < ws.len() {
+        return Case { program: ws[run as usize].1.clone(), config };
+    }
+    let program = match check {
+        "C02" | "C03" => gen_litmus_any(&mut rng, thorough),
+        "C01" => {
+            if rng.chance(1, 4) {
+                // atomics with interleaving semantics
+                gen_litmus_any(&mut rng, false)
             } else {
-                let big = thorough && rng.chance(1, 3);
-                let pr = litmus_profile(&mut rng, big);
-                gen_litmus(&mut rng, &pr)
-            };
-            let mut config = Config::default();
-            config.iter_cap = if thorough { 60_000 } else { 12_000 };
-            Case { program, config }
+                let mut pr = sync_profile(&mut rng, "");
+                pr.palette_sc_only = rng.chance(1, 2);
+                gen_sync(&mut rng, &pr)
+            }
         }
+        "C04" => gen_race(&mut rng),
+        "C05" => {
+            let pr = sync_profile(&mut rng, "deadlock");
+            gen_sync(&mut rng, &pr)
+        }
+        "C07" => {
+            let pr = sync_profile(&mut rng, "lock");
+            gen_sync(&mut rng, &pr)
+        }
+        "C08" => {
+            let pr = sync_profile(&mut rng, "wait");
+            gen_sync(&mut rng, &pr)
+        }
+        "C09" => {
+            let pr = sync_profile(&mut rng, "chan");
+            gen_sync(&mut rng, &pr)
+        }
+        "C14" => match rng.below(3) {
+            0 => gen_litmus_any(&mut rng, false),
+            1 => {
+                let pr = sync_profile(&mut rng, "");
+                gen_sync(&mut rng, &pr)
+            }
+            _ => {
+                let pr = sync_profile(&mut rng, "wait");
+                gen_sync(&mut rng, &pr)
+            }
+        },
         _ => panic!("unknown check {}", check),
+    };
+    Case { program, config }
+}
+
+fn gen_litmus_any(rng: &mut Rng, thorough: bool) -> Program {
+    if rng.chance(2, 5) {
+        gen_litmus_template(rng)
+    } else {
+        let big = thorough && rng.chance(1, 3);
+        let pr = litmus_profile(rng, big);
+        gen_litmus(rng, &pr)
     }
 }
 
@@ -60,17 +111,119 @@ pub fn judge(check: &str, tier: &str, case: &Case, seed: u64, run: u64) -> CaseR
         opts.walks0 = 128;
         opts.walk_cap = 4096;
     }
+    let leak = FailClass::Leak(String::new());
     match check {
+        "C01" => {
+            let mut m = MachineCfg::must();
+            m.sc_atomics = true;
+            opts.o1 = Some(m);
+            opts.o3_must_classes = vec![FailClass::Deadlock];
+            opts.internal_is_violation = false;
+            opts.ignore_classes = vec![FailClass::Race, leak, FailClass::Deadlock, FailClass::LoomInternal];
+        }
         "C02" => {
             opts.o1 = Some(MachineCfg::must());
         }
         "C03" => {
             opts.o2 = true;
         }
+        "C04" => {
+            opts.o1 = None;
+            opts.o3_must_classes = vec![FailClass::Race];
+            opts.o3_may_classes = vec![FailClass::Race];
+            opts.ignore_classes = vec![leak];
+        }
+        "C05" => {
+            opts.o3_must_classes = vec![FailClass::Deadlock];
+            opts.o3_may_classes = vec![FailClass::Deadlock];
+            opts.ignore_classes = vec![leak, FailClass::Race];
+        }
+        "C07" => {
+            opts.o1 = Some(MachineCfg::must());
+            opts.o2 = true;
+            opts.o3_must_classes = vec![FailClass::Race];
+            opts.o3_may_classes = vec![FailClass::Race, FailClass::Deadlock];
+            opts.ignore_classes = vec![leak];
+        }
+        "C08" => {
+            opts.o1 = Some(MachineCfg::must());
+            opts.o2 = true;
+            opts.o3_must_classes = vec![FailClass::Race, FailClass::Deadlock];
+            opts.o3_may_classes = vec![FailClass::Race, FailClass::Deadlock];
+            opts.ignore_classes = vec![leak];
+        }
+        "C09" => {
+            opts.o1 = Some(MachineCfg::must());
+            opts.o2 = true;
+            opts.o3_must_classes = vec![FailClass::Race, FailClass::Deadlock, leak.clone()];
+            opts.o3_may_classes = vec![FailClass::Race, FailClass::Deadlock, leak];
+        }
+        "C14" => {
+            opts.o4 = true;
+            opts.internal_is_violation = false;
+            opts.ignore_classes = vec![FailClass::Race, leak, FailClass::Deadlock, FailClass::LoomInternal];
+        }
         _ => panic!("unknown check {}", check),
     }
-    let _ = FailClass::Deadlock;
-    run_case(&case.program, &case.config, &opts, &mut rng)
+    // K6 (unlock is invisible to loom's partial-order reduction): which try-acquire results are
+    // explored is a recorded finding; completeness is not demanded of programs with try-acquires
+    // (their validity, O2/O3b, still is). The finding itself is probed by fixed witness programs.
+    let ws = witnesses(check);
+    let is_witness = (run as usize) < ws.len();
+    if has_try_acquire(&case.program) && !is_witness {
+        opts.o1 = None;
+        opts.o3_must_classes.clear();
+    }
+    if is_witness {
+        opts.attribute = false;
+        // witnesses of K6 demand what loom's scheduling granularity hides
+        let mut m = opts.o1.clone().unwrap_or_else(MachineCfg::must);
+        m.switch_only_at_branch_points = false;
+        opts.o1 = Some(m);
+    }
+    let mut rep = run_case(&case.program, &case.config, &opts, &mut rng);
+    if is_witness {
+        let (id, _, kind) = &ws[run as usize];
+        for v in rep.violations.iter_mut() {
+            if v.known.is_none() && &v.kind == kind {
+                v.known = Some(id.to_string());
+            }
+        }
+    }
+    rep
+}
+
+pub fn has_try_acquire(p: &Program) -> bool {
+    p.threads.iter().flatten().any(|op| {
+        let mut o = op;
+        while let Op::If { then, .. } = o {
+            o = then;
+        }
+        matches!(o, Op::TryLock { .. } | Op::TryRLock { .. } | Op::TryWLock { .. })
+    })
+}
+
+/// Fixed witness programs of open known findings, run as the first runs of a check:
+/// (finding id, program, violation kind expected while the finding is open).
+pub fn witnesses(check: &str) -> Vec<(&'static str, Program, &'static str)> {
+    let mut v = Vec::new();
+    if check == "C01" || check == "C07" {
+        // T0: spawn(T1) trylock(m0) unlock(m0) join(T1) | T1: lock(m0) unlock(m0)  -- trylock never fails
+        let mut p = Program { n_mutex: 1, ..Default::default() };
+        p.threads = vec![
+            vec![Op::Spawn { t: 1 }, Op::TryLock { m: 0 }, Op::Unlock { m: 0 }, Op::Join { t: 1 }],
+            vec![Op::Lock { m: 0 }, Op::Unlock { m: 0 }],
+        ];
+        v.push(("K6-ops-without-scheduling-point", p, "missing_outcome"));
+        // try_write against a reader
+        let mut p = Program { n_rwlock: 1, ..Default::default() };
+        p.threads = vec![
+            vec![Op::Spawn { t: 1 }, Op::TryWLock { l: 0 }, Op::WUnlock { l: 0 }, Op::Join { t: 1 }],
+            vec![Op::RLock { l: 0 }, Op::RUnlock { l: 0 }],
+        ];
+        v.push(("K6-ops-without-scheduling-point", p, "missing_outcome"));
+    }
+    v
 }
 
 /// Known-finding attribution for a worker death (abort / hang) on this case, if any.
